@@ -471,7 +471,7 @@ impl Prop for C11 {
             }
         }
         if ctx.want_xcheck() && cfg.gitconfig.is_none() {
-            ctx.xchecks.push(json!({"argv": cfg.args(None), "env": exec::env_from_spec(&cfg.env), "n": n, "pager_mode": ctx.xchecks.len() % 3 == 2,
+            ctx.xchecks.push(json!({"argv": cfg.args(None), "env": exec::env_from_spec(&cfg.env), "n": n, "pager_mode": fnv(&input) % 3 == 0,
                 "lines": case.lines.iter().map(|l| l.text.clone()).collect::<Vec<_>>(),
                 "meta": case.lines.iter().map(|l| json!([match l.kind { K::Header => 0, K::HunkHeader => 1, K::Ctx => 2, K::Minus => 3, K::Plus => 4, K::NoNewline => 5 }, l.sec, l.id])).collect::<Vec<_>>(),
                 "out_hash": format!("{:016x}", fnv(out))}));
@@ -516,6 +516,12 @@ fn blocked_in_read0(pid: u32) -> Option<bool> {
 fn voluntary_switches(pid: u32) -> Option<u64> {
     let s = std::fs::read_to_string(format!("/proc/{}/task/{}/status", pid, pid)).ok()?;
     s.lines().find_map(|l| l.strip_prefix("voluntary_ctxt_switches:")).and_then(|v| v.trim().parse().ok())
+}
+
+/// bytes the process has passed to write calls so far
+fn written_bytes(pid: u32) -> Option<u64> {
+    let s = std::fs::read_to_string(format!("/proc/{}/io", pid)).ok()?;
+    s.lines().find_map(|l| l.strip_prefix("wchar:")).and_then(|v| v.trim().parse().ok())
 }
 
 fn drain(fd: &mut std::process::ChildStdout, into: &mut Vec<u8>) -> bool {
@@ -572,7 +578,7 @@ fn probe(delta: &std::path::Path, args: &[String], env: &[(String, String)], hom
     cmd.stdin(Stdio::piped()).stdout(Stdio::piped()).stderr(Stdio::null());
     let mut child = cmd.spawn()?;
     let pid = child.id();
-    let mut pager_pid: Option<u32> = None;
+    let mut base: Option<(u64, u64)> = None;
     let mut stdin = child.stdin.take().unwrap();
     let mut stdout = child.stdout.take().unwrap();
     unsafe {
@@ -620,30 +626,22 @@ fn probe(delta: &std::path::Path, args: &[String], env: &[(String, String)], hom
             match blocked_in_read0(pid) {
                 Some(true) => {
                     if pager {
-                        // the pager too must have forwarded what it got: blocked in read(0) on
-                        // three looks 300 us apart, with nothing new arriving in between
-                        if pager_pid.is_none() {
-                            pager_pid = child_of(pid);
-                        }
-                        let pp = match pager_pid {
-                            Some(p) => p,
+                        // everything delta has written so far (its write counter in
+                        // /proc/<pid>/io) must have come through the pager to us: a conservation
+                        // condition, no timing involved
+                        let w = match written_bytes(pid) {
+                            Some(w) => w,
                             None => return false,
                         };
-                        let mut calm = 0;
-                        let mut tries = 0;
-                        while calm < 3 && tries < 20_000 {
-                            tries += 1;
-                            let before = out.len();
+                        let (w0, r0) = *base.get_or_insert((w, out.len() as u64));
+                        let target = r0 + (w - w0);
+                        let t1 = Instant::now();
+                        while (out.len() as u64) < target {
                             drain(stdout, out);
-                            if blocked_in_read0(pp) == Some(true) && out.len() == before {
-                                calm += 1;
-                            } else {
-                                calm = 0;
+                            if t1.elapsed() > Duration::from_secs(5) {
+                                return false;
                             }
-                            std::thread::sleep(Duration::from_micros(300));
-                        }
-                        if calm < 3 {
-                            return false;
+                            std::thread::sleep(Duration::from_micros(100));
                         }
                     }
                     drain(stdout, out);
@@ -765,6 +763,7 @@ fn binary_probes(sup: &mut Sup) {
     let xs = sup.xchecks.clone();
     let (mut probes, mut inconclusive, mut prefixes, mut same_final) = (0u64, 0u64, 0u64, 0u64);
     let mut per_side_seen = 0u64;
+    let mut pager_streams = 0u64;
     for x in xs.iter() {
         if x["lines"].as_array().map(|a| a.len()).unwrap_or(0) > 400 {
             continue;
@@ -772,6 +771,9 @@ fn binary_probes(sup: &mut Sup) {
         let mut stats = (0u64, 0u64, 0u64);
         let r = judge_stream(&delta, &home, x, &mut stats);
         prefixes += stats.0;
+        if x["pager_mode"].as_bool().unwrap_or(false) {
+            pager_streams += 1;
+        }
         same_final += stats.1;
         per_side_seen += stats.2;
         match r {
@@ -794,7 +796,7 @@ fn binary_probes(sup: &mut Sup) {
     if inconclusive > 0 {
         *sup.notes.entry("pipe_probes_inconclusive".to_string()).or_insert(0) += inconclusive;
     }
-    sup.extra.insert("pipe_probes".into(), json!({"streams": probes, "inconclusive": inconclusive, "prefixes_judged": prefixes, "final_output_identical_to_in_process": same_final, "prefixes_with_listed_per_side_lag": per_side_seen}));
+    sup.extra.insert("pipe_probes".into(), json!({"streams": probes, "inconclusive": inconclusive, "prefixes_judged": prefixes, "final_output_identical_to_in_process": same_final, "prefixes_with_listed_per_side_lag": per_side_seen, "streams_written_to_a_pager": pager_streams}));
 }
 
 pub fn debug_probe(x: &Value) {
